@@ -228,7 +228,7 @@ def run_check(pid, tier, seed, t0, replay):
             "rule": res["rule"], "samples": res["samples"], "scenarios": res["scenarios"],
             "input_distribution": res["distribution"], "branches": res["branches"], "ties_accepted": res["ties"],
             "corpus": res["corpus"], "known_findings_hit": known_hits, "gen": gen_note, "leanchecker": leanchecker_note,
-            "paired_runs": res.get("paired_runs", 0),
+            "paired_runs": res.get("paired_runs", 0), "exhaustive_subspaces": res.get("exhaustive_subspaces", []),
             "exhaustive": False,
         },
         "assumptions": ["float rounding error of the implementation stays below relative 1e-9 per phase",
